@@ -13,9 +13,15 @@
 #define WUFFS_CONFIG__MODULE__CRC32
 #define WUFFS_CONFIG__MODULE__DEMO
 #define WUFFS_CONFIG__MODULE__LZW
+#define WUFFS_CONFIG__MODULE__CRC64
+#define WUFFS_CONFIG__MODULE__XXHASH32
+#define WUFFS_CONFIG__MODULE__XXHASH64
 #include "wuffs-std-adler32.c"
 #include "wuffs-std-crc32.c"
 #include "wuffs-std-lzw.c"
+#include "wuffs-std-crc64.c"
+#include "wuffs-std-xxhash32.c"
+#include "wuffs-std-xxhash64.c"
 #include "wuffs-corpus-demo.c"
 #include "verif.h"
 
@@ -240,3 +246,27 @@ void harness_any_lzw(void) {
   }
   verif_reach("any/done");
 }
+
+// ---- more std hashers: any slice of any bytes, fed in two arbitrary pieces ----
+
+#define ANY_HASHER(NAME, TYPE, INIT, UPDATE, UPDATE_RET, CHECKSUM, RET)                                  \
+  void NAME(void) {                                                                                      \
+    uint8_t mem[24];                                                                                     \
+    for (int i = 0; i < 24; i++) mem[i] = nondet_u8();                                                   \
+    uint64_t off = nondet_u64(), n = nondet_u64(), k = nondet_u64();                                     \
+    verif_assume(off <= 24 && n <= 24 - off && n <= (uint64_t)verif_param("N") && k <= n);              \
+    TYPE h;                                                                                              \
+    verif_check(INIT(&h, sizeof h, WUFFS_VERSION, 0).repr == NULL, "any/init");                          \
+    UPDATE(&h, wuffs_base__make_slice_u8(mem + off, k));                                                 \
+    RET a = UPDATE_RET(&h, wuffs_base__make_slice_u8(mem + off + k, n - k));                             \
+    RET b = CHECKSUM(&h);                                                                                \
+    verif_check(a == b, "any/hasher-checksum-getter");                                                   \
+    verif_reach("any/done");                                                                             \
+  }
+
+ANY_HASHER(harness_any_crc64, wuffs_crc64__ecma_hasher, wuffs_crc64__ecma_hasher__initialize, wuffs_crc64__ecma_hasher__update,
+           wuffs_crc64__ecma_hasher__update_u64, wuffs_crc64__ecma_hasher__checksum_u64, uint64_t)
+ANY_HASHER(harness_any_xxhash32, wuffs_xxhash32__hasher, wuffs_xxhash32__hasher__initialize, wuffs_xxhash32__hasher__update,
+           wuffs_xxhash32__hasher__update_u32, wuffs_xxhash32__hasher__checksum_u32, uint32_t)
+ANY_HASHER(harness_any_xxhash64, wuffs_xxhash64__hasher, wuffs_xxhash64__hasher__initialize, wuffs_xxhash64__hasher__update,
+           wuffs_xxhash64__hasher__update_u64, wuffs_xxhash64__hasher__checksum_u64, uint64_t)
